@@ -180,6 +180,7 @@ func (mi *MessageInfo) unmarshalPointerLazy(b []byte, p pointer, groupTag protow
 	var lazyIndex []protolazy.IndexEntry
 	var lastNum protowire.Number
 	outOfOrder := false
+	lastIndexed := false
 	lazyDecode := false
 	presence = p.Apply(mi.presenceOffset).PresenceInfo()
 	lazy = p.Apply(mi.lazyOffset).LazyInfoPtr()
@@ -378,8 +379,13 @@ func (mi *MessageInfo) unmarshalPointerLazy(b []byte, p pointer, groupTag protow
 		}
 		b = b[n:]
 		end := start - len(b)
-		if lazyDecode && f != nil && f.isLazy {
-			if num != lastNum {
+		// Only occurrences that were accepted as data of the lazy field
+		// belong in the index. An occurrence with a wire type the field does
+		// not accept has just been stored as an unknown field; indexing it
+		// too would emit it twice when the undecoded field is marshaled.
+		indexed := lazyDecode && f != nil && f.isLazy && err == nil
+		if indexed {
+			if num != lastNum || !lastIndexed {
 				lazyIndex = append(lazyIndex, protolazy.IndexEntry{
 					FieldNum: uint32(num),
 					Start:    uint32(pos),
@@ -391,6 +397,7 @@ func (mi *MessageInfo) unmarshalPointerLazy(b []byte, p pointer, groupTag protow
 				lazyIndex[i].MultipleContiguous = true
 			}
 		}
+		lastIndexed = indexed
 		if num < lastNum {
 			outOfOrder = true
 		}
